@@ -31,7 +31,7 @@ ASSUMPTIONS = [
     "edits producing two ==-equal values of different kind under one attribute are discarded (excluded by the statement)",
 ]
 TRANSFORMS = ["rebuild", "dup", "update", "json", "rebuild+json", "dup+rebuild"]
-EDITS = ["alter_value", "add_value", "remove_value", "change_formal", "change_id", "drop_id", "add_record",
+EDITS = ["uri_qn_swap", "alter_value", "add_value", "remove_value", "change_formal", "change_id", "drop_id", "add_record",
          "remove_record", "add_empty_bundle", "add_bundle", "remove_bundle", "add_member", "remove_member", "swap_type"]
 REQUIRED_CLASSES = {"all": ["edit:" + e for e in EDITS] + ["transform:" + t for t in TRANSFORMS] +
                     ["pair:equal", "pair:different", "records:eq_pairs", "mode:mutate_after_compare", "touched_before_compare"]}
@@ -140,7 +140,15 @@ def apply_edit(content, edit, sel, value, name):
         ci, ri = cands[sel[0] % len(cands)]
         return conts[ci][ri]
 
-    if edit == "alter_value":
+    if edit == "uri_qn_swap":
+        r = pick(lambda r: any(a not in formal_names and v[0] in ("uri", "qn") for a, v in r["attrs"]))
+        if r is None:
+            return None
+        idx = [i for i, (a, v) in enumerate(r["attrs"]) if a not in formal_names and v[0] in ("uri", "qn")]
+        i = idx[sel[1] % len(idx)]
+        a, v = r["attrs"][i]
+        r["attrs"][i] = [a, ["qn" if v[0] == "uri" else "uri", v[1]]]
+    elif edit == "alter_value":
         r = pick(lambda r: any(a not in formal_names for a, _ in r["attrs"]))
         if r is None:
             return None
